@@ -60,7 +60,6 @@ try:
             res['suite_tail'] = out[-1500:]
     # 4. demo with change
     shutil.copy(f'{src}/demo_test.go', f'{wt}/zz_demo_{name.replace("-","_")}_test.go')
-    rc, out = run('go test -vet=off -count=1 -run "Test" -timeout 10m . 2>&1 | tail -40', cwd=wt)
     # run only the tests defined in the demo file
     tests = re.findall(r'^func (Test\w+)\(', open(f'{src}/demo_test.go').read(), re.M)
     pat = '^(' + '|'.join(tests) + ')$'
